@@ -651,7 +651,7 @@ class Symx:
         return self.sym(e0, st)
 
     def vector_ctor(self, e, st):
-        args = e['args']
+        args = [x for x in e['args'] if x.get('k') != 'DefaultArg']
         a = Arr('vec')
         if e.get('stdinit') or e.get('list'):
             elems = args
@@ -659,7 +659,13 @@ class Symx:
                 elems = strip(args[0])['elems']
             for i, x in enumerate(elems):
                 kv = sp.Dummy('k', integer=True)
-                v = self.sym_or_name(x, st)
+                v = self.rvalue(x, st)
+                if isinstance(v, Arr):
+                    for kvs2, g2, t2 in v.defs:
+                        a.defs.append(((kv,) + tuple(kvs2), sp.And(sp.Eq(kv, i), g2), t2))
+                    continue
+                if isinstance(v, LambdaVal):
+                    v = Symbol('lambda')
                 a.defs.append(((kv,), sp.Eq(kv, i), v))
             a.length = Integer(len(elems))
             return a
